@@ -162,6 +162,9 @@ def page_classes():
     c['ok_timestamping'] = _p(resp(headers=(b'Last-Modified: Mon, 01 Jan 2024 00:00:00 GMT',)), argv=['-N'])
     c['ok_no_clobber'] = _p(resp(), argv=['-nc'])
     c['ok_convert_links'] = _p(resp(b'<html><body><a href="http://a.test/p3">x</a><img src="i.png"></body></html>'), argv=['-k', '-K'])
+    # page requisites whose link type comes from the document: <object codebase=X> where X is the name of an attribute
+    c['ok_object_codebase_attrname'] = _p(resp(b'<html><body><object codebase="data" data="foo.bin"></object>'
+                                               b'<embed codebase="src" src="q.swf"></body></html>'), argv=['-p'])
     c['ok_page_requisites_convert'] = _p(resp(b'<html><body><img src="http://a.test/p3"></body></html>'), argv=['-k', '-p'])
     # a request with a body answered with 401 (credentials given): the retry carries the body again
     c['au_401_post'] = _p(resp(b'', status=b'HTTP/1.1 401 Unauthorized', headers=(b'WWW-Authenticate: Basic realm="x"',)),
@@ -405,6 +408,8 @@ TOKENS = {
         'lone_surrogate_utf8': b'\xed\xa0\x80\xed\xbf\xbf', 'bom_utf16': b'\xff\xfe', 'deep_nesting': b'<div>' * 3000,
         'quote': b'"', 'gt': b'>', 'link_text_ipv6': b'<link>http://[x</link><url>\x00</url>',
         'object_codebase_ipv6': b'<object codebase="http://[" data="x" archive="a b  c"></object>',
+        # (a codebase value that is the NAME of another attribute of the element)
+        'object_codebase_attrname': b'<object codebase="data" data="foo.bin"></object><embed codebase="src" src="q.swf">',
         'onclick_js': b'<a onclick="\'\\u\\x\\ud800.html\'" onmouseover="\'/x/\'">o</a>',
         'data_attr': b'<div data-src="/d.png" data-x="http://[/">', 'attr_dup': b'<a href=x href=y href>',
         'tag_nul': b'<\x00a href=x><a\x00 href=y>',
